@@ -22,14 +22,14 @@ def expected_files(flags, has_syntax, outdir):
 
 class B2(batch.Batch):
     """gocc is invoked with caller-chosen -o / -p"""
-    def _gen_one(self, it):
+    def _gen_one(self, it, timeout=30):
         import subprocess
         fl = list(it["flags"])
         if "-o" not in fl:
             fl += ["-o", "out"]
         cmd = [self.gocc] + fl + [it["fname"]]
         try:
-            p = subprocess.run(cmd, cwd=it["dir"], stdout=subprocess.PIPE, stderr=subprocess.PIPE, timeout=30, env=C.GOENV)
+            p = subprocess.run(cmd, cwd=it["dir"], stdout=subprocess.PIPE, stderr=subprocess.PIPE, timeout=timeout, env=C.GOENV)
             it["rc"], it["out"], it["err"], it["hang"] = p.returncode, p.stdout.decode("utf-8", "replace"), p.stderr.decode("utf-8", "replace"), False
         except subprocess.TimeoutExpired:
             it["rc"], it["out"], it["err"], it["hang"] = -9, "", "", True
@@ -61,7 +61,12 @@ def run(tier):
             if k % 4 == 1 and syn:
                 first_alt_end = text.index("\n  |", text.index("S0 :")) if "\n  |" in text else None
                 if first_alt_end:
-                    text = text[:first_alt_end] + " << func() (interface{}, error) { s := `%s{{.}}`; _ = s /* c */; return X[0], nil }() >>" + text[first_alt_end:]
+                    acts = [" << func() (interface{}, error) { s := `%s{{.}}`; _ = s /* c */; return X[0], nil }() >>",
+                            # an action may begin with a comment (documentation of the alternative), also one that spans lines
+                            " << // the first symbol\n X[0], nil >>",
+                            " << /* the first\n symbol */ X[0], nil // done >>",
+                            " <<\n\t// doc\n\tX[0],\n\tnil\n>>"]
+                    text = text[:first_alt_end] + ck.rng.choice(acts) + text[first_alt_end:]
             # how a file ends must not matter: no final newline, a final // comment without newline, CR LF, trailing blanks
             text = text.rstrip("\n") + ck.rng.choice(["\n", "", " // the end", "\r\n", " /* end */", "\n\n  \t", " //"])
             for fl in (FLAGSETS if k < 4 or tier == "thorough" else ck.rng.sample(FLAGSETS, 3)):
@@ -88,7 +93,7 @@ def run(tier):
             stats["byte_mutants"] += kind == "bytes"
             if it["hang"]:
                 stats["hangs"] += 1
-                ck.violation("gocc did not terminate within 30 s (flags %s)" % it["flags"], {"grammar_bytes": list(it["text"]), "flags": it["flags"]})
+                ck.violation("gocc did not terminate within 30 s, nor within 300 s when run again alone (flags %s)" % it["flags"], {"grammar_bytes": list(it["text"]), "flags": it["flags"]})
                 continue
             stats["panics"] += it["rc"] == 2
             if it["rc"] == 0:
